@@ -136,6 +136,9 @@ func (c *fpCtx) val(v AV) {
 	case BoolV:
 		fmt.Fprintf(sb, "b%v%v%v", x.T, x.F, x.Opq)
 	case IntV:
+		if x.Bits != nil {
+			sb.WriteString("B" + x.Bits.String())
+		}
 		if x.Known {
 			fmt.Fprintf(sb, "i%d", x.V)
 		} else if x.Sym > 0 {
